@@ -169,29 +169,41 @@ def r4(ctx, rep):
             rep.finding(R4, f'C05.R4/{lg.name}/finish', m.relfile(lg.module), f'{lg.name}.Model.finish',
                         'classical-family model does not use CPL.Model.finish (identity/existence completion)')
     rep.floor('C05.R4', 'classical logics', n, 7)
-    # structural reading of the two closures and the completion
-    fn = m.func(CPL, 'Rules.SelfIdentityClosure.node_will_close_branch')
-    src = ast.unparse(fn)
-    ok = 'self[FilterHelper].config.pred(node)' in src and 'len(set(self.sentence(node))) == 1' in src
-    rep.instance(R4, ok=ok, nontrivial='SelfIdentityClosure.node_will_close_branch')
-    rep.consult(m.loc(CPL, fn) + ' SelfIdentityClosure.node_will_close_branch')
-    if not ok:
-        rep.finding(R4, 'C05.R4/SelfIdentityClosure.node_will_close_branch', m.loc(CPL, fn), 'cpl.Rules.SelfIdentityClosure',
-                    'no longer closes exactly on filter-matching nodes whose parameters are one and the same')
-    fn = m.func(CPL, 'Rules.NonExistenceClosure.node_will_close_branch')
-    ok = 'return self[FilterHelper](node, branch)' in ast.unparse(fn)
-    rep.instance(R4, ok=ok, nontrivial='NonExistenceClosure.node_will_close_branch')
-    if not ok:
-        rep.finding(R4, 'C05.R4/NonExistenceClosure.node_will_close_branch', m.loc(CPL, fn), 'cpl.Rules.NonExistenceClosure',
-                    'no longer closes exactly on nodes passing the (negated, Existence) filter')
-    for cls in ('SelfIdentityClosure', 'NonExistenceClosure'):
-        fn = m.func(CPL, f'Rules.{cls}._branch_target_hook')
-        src = ast.unparse(fn)
-        ok = 'if self.node_will_close_branch(node, branch)' in src and 'return Target(node=node, branch=branch)' in src
-        rep.instance(R4, ok=ok, nontrivial=f'{cls}._branch_target_hook')
-        if not ok:
-            rep.finding(R4, f'C05.R4/{cls}._branch_target_hook', m.loc(CPL, fn), f'cpl.Rules.{cls}',
-                        'no longer targets exactly the nodes that will close the branch')
+    # the two predicate closures, folded over mock nodes
+    from ..minieval import Interp, Obj, Raises
+
+    class RuleMock(dict):
+        pass
+    for cls, cases in (('SelfIdentityClosure', None), ('NonExistenceClosure', None)):
+        f_will = m.func(CPL, f'Rules.{cls}.node_will_close_branch')
+        f_hook = m.func(CPL, f'Rules.{cls}._branch_target_hook')
+        rep.consult(m.loc(CPL, f_will) + f' {cls}.node_will_close_branch', m.loc(CPL, f_hook) + f' {cls}._branch_target_hook')
+        a, a1, b = Obj('a', index=0, subscript=0), Obj('a1', index=0, subscript=1), Obj('b', index=1, subscript=0)
+        for passes in (True, False):
+            for params in ((a, a), (a, b), (a, a1), (b, b)) if cls == 'SelfIdentityClosure' else ((a,), (b,)):
+                released = []
+                rule = RuleMock()
+                fh = Obj('FilterHelper', config=Obj('config', pred=lambda node: passes), release=lambda n, br: released.append('F'))
+                fh.__class__ = type('FH', (Obj,), {'__call__': lambda s_, node, branch: passes})
+                rule['FilterHelper'] = fh
+                rule['PredNodes'] = Obj('PredNodes', release=lambda n, br: released.append('P'))
+                rule.sentence = lambda node: params
+                it = Interp(dict(FilterHelper='FilterHelper', PredNodes='PredNodes', Target=lambda **kw: ('TARGET', kw.get('node'), kw.get('branch'))),
+                            where=f'logics/cpl.py {cls}')
+                rule.node_will_close_branch = lambda node, branch: it.call(f_will, [rule, node, branch])
+                r = it.safe(f_will, [rule, 'NODE', 'BRANCH'])
+                want = passes and (len(set(params)) == 1 if cls == 'SelfIdentityClosure' else True)
+                ok = bool(r) == want and not isinstance(r, Raises)
+                case = f'filter passes={passes} parameters={[p._name for p in params]}'
+                rep.instance(R4, ok=ok, nontrivial=(cls, case))
+                if not ok:
+                    rep.finding(R4, f'C05.R4/{cls}.node_will_close_branch/{case}', m.loc(CPL, f_will), f'cpl.Rules.{cls}',
+                                f'{case}: closes={r!r}, expected {want} (the negated {"identity of a term with itself" if cls == "SelfIdentityClosure" else "existence claim"} only)')
+                t = it.safe(f_hook, [rule, 'NODE', 'BRANCH'])
+                ok = (t == ('TARGET', 'NODE', 'BRANCH')) == want
+                rep.instance(R4, ok=ok, nontrivial=(cls, 'hook', case))
+                if not ok:
+                    rep.finding(R4, f'C05.R4/{cls}._branch_target_hook/{case}', m.loc(CPL, f_hook), f'cpl.Rules.{cls}', f'{case}: hook returns {t!r}, expected a closing target iff {want}')
         have = {f.name for f in glue.merged_filters(m, ClassRef(CPL, f'Rules.{cls}'))}
         ok = 'NodeSentence' in have
         rep.instance(R4, ok=ok, nontrivial=f'{cls}.filters')
